@@ -15,6 +15,8 @@ follow `Comparable(reverse, equalNull, nullLast)` and `Compare` of the column pa
 * `compare_spec`: the result table orders a nullable key exactly as the property says
   (null least, greatest with NullLast, Reverse inverting the whole order incl. nulls).
 * `sort_by_orders`: end to end for any list of `Order`s.
+* `QF.Props.C03SorterGen.gen_sorter_semantics` (C03SorterGen.lean): the sorter regenerated from today's source, interpreted,
+  returns exactly `Sorter.sort`.
 -/
 namespace QF.Props.C03
 
@@ -41,6 +43,11 @@ theorem sort_by_orders (ks : List (Bool × Bool × Cmp.Key)) (ix : Sorter.Ix) :
 -- The comparators (`Comparable.Compare`, `Column.Comparable` of the five column packages) are not compared as text any
 -- more: their meaning is regenerated on every run (`Gen.compareAst`, `Gen.comparableFields`) and proved equal to the
 -- spec's `keyCmp` / key equality in `QF.Props.C03Compare` (`gen_compare_semantics`, `sorter_less_eq_rowLess`).
-theorem tie : Tie.sameAll ["sort.Less", "sort.Sort", "sort.quickSort", "sort.doPivot", "sort.heapSort", "sort.siftDown", "sort.insertionSort", "sort.medianOfThree", "sort.maxDepth", "qframe.Sort"] = true := by decide
+-- The functions of internal/sort (`Less`, `Sort`, `quickSort`, `doPivot`, `heapSort`, `siftDown`, `insertionSort`,
+-- `medianOfThree`, `maxDepth`, `Swap`, `Len`) are not compared as text any more either: they are regenerated statement by
+-- statement on every run (`Gen.sorterFns`, go/cmd/extract/sortast.go), interpreted, and proved equal to the mirror
+-- `Sorter.sort` for every index and comparison function in `QF.Props.C03SorterGen` (`gen_sorter_canon`,
+-- `gen_sorter_semantics`); a rename raises no alarm, a changed operator, bound or statement does.
+theorem tie : Tie.sameAll ["qframe.Sort"] = true := by decide
 
 end QF.Props.C03
